@@ -354,6 +354,106 @@ func c04Oracle(p c04Params, got []c04Line, x int64, othersOffered int) (string, 
 	return out, viol
 }
 
+// c04Rotation: a follow that has been running for a while survives log rotation: the followed file is truncated
+// in place (copytruncate) or renamed away and re-created at t = 5 s; lines appended to the path 8 s later (well
+// after the follower's 3 s truncation check and the 2 s re-open) are delivered once and in order.  A whole server
+// session is used because the re-open is done by the session's read command.
+func c04Rotation(c *Ctx) {
+	for _, mode := range []string{"copytruncate", "rename-and-create"} {
+		for _, at := range []int{1, 5, 7} {
+			mode, at := mode, at
+			path := fmt.Sprintf("%s/c04-rot-%d-%s-%d.log", Scratch(), c.Shard, mode, at)
+			sc := &explore.Scenario{Name: "c04-rotation", Params: fmt.Sprintf("%s at t=%ds", mode, at), Agg: "c04-rotation", MaxSteps: 500000, Horizon: 10 * time.Minute, Demotion: true}
+			sc.Run = func(cfg vrt.Config) (string, string, vrt.Result) {
+				var viol, out string
+				res := vrt.Run(cfg, func() {
+					args := DefaultArgs()
+					args.Logger = "none"
+					args.LogLevel = "error"
+					StartEnv(source.Server, &args, nil)
+					os.Remove(path + ".1")
+					if err := os.WriteFile(path, []byte("old1\nold2\nold3\n"), 0o644); err != nil {
+						panic(err)
+					}
+					cat := vrt.Make[struct{}]("catLimiter", 2)
+					tail := vrt.Make[struct{}]("tailLimiter", 2)
+					s := NewServerSession("follower", "verifuser", cat, tail)
+					vrt.Go("pump", func() { s.Pump(32 * 1024) })
+					s.H.Write(WireCommand("tail " + path + " regex:noop "))
+					appendLines := func(text string) {
+						f, err := os.OpenFile(path, os.O_WRONLY|os.O_APPEND, 0o644)
+						if err != nil {
+							panic(err)
+						}
+						f.Write([]byte(text))
+						f.Close()
+					}
+					vrt.Sleep("follow", time.Second/2)
+					appendLines("before1\n")
+					vrt.Sleep("until-rotation", time.Duration(at)*time.Second-time.Second/2)
+					if mode == "copytruncate" {
+						os.Truncate(path, 0)
+					} else {
+						os.Rename(path, path+".1")
+						os.WriteFile(path, nil, 0o644)
+					}
+					vrt.Sleep("after-rotation", 8*time.Second)
+					appendLines("after1\n")
+					vrt.Sleep("gap", time.Second)
+					appendLines("after2\nafter3\n")
+					vrt.Sleep("deliver", 3*time.Second)
+					s.H.Shutdown()
+					s.Done.Recv("wait")
+					var texts []string
+					for _, m := range s.Lines() {
+						if f := strings.SplitN(m, "|", 6); len(f) == 6 {
+							texts = append(texts, strings.TrimSuffix(f[5], "\n"))
+						}
+					}
+					out = strings.Join(texts, ",")
+					var after []string
+					for _, t := range texts {
+						if strings.HasPrefix(t, "after") {
+							after = append(after, t)
+						}
+						if strings.HasPrefix(t, "old") {
+							viol = fmt.Sprintf("content that was in the file before the follow began was delivered: %q (all: %v)", t, texts)
+						}
+					}
+					if viol == "" && strings.Join(after, ",") != "after1,after2,after3" {
+						viol = fmt.Sprintf("%s at t=%d s, three lines appended 8-9 s later: delivered %v, want each of after1, after2, after3 once and in order (all delivered: %v)", mode, at, after, texts)
+					}
+				})
+				if res.Fail != nil {
+					return "fail:" + res.Fail.Kind, res.Fail.Error(), res
+				}
+				return out, viol, res
+			}
+			sc.Filter = func(pt *vrt.Point, alt int) bool {
+				if pt.Alts[alt].Kind != vrt.AltRun {
+					return true
+				}
+				switch pt.Infos[alt].Kind {
+				case "wgadd", "wgwait", "lock", "unlock":
+					return false
+				}
+				return true
+			}
+			c.Explore(sc, 1, func(msg string, v *explore.Violation) string {
+				switch {
+				case strings.HasPrefix(msg, "panic"):
+					return "panic"
+				case strings.HasPrefix(msg, "deadlock"):
+					return "deadlock"
+				case strings.Contains(msg, "before the follow began"):
+					return "old-content-delivered"
+				}
+				return "lines-after-rotation-not-delivered"
+			})
+		}
+	}
+}
+
 func c04Compositions(s string, maxParts int) (out [][]string) {
 	var rec func(start int, cur []string)
 	rec = func(start int, cur []string) {
@@ -427,10 +527,10 @@ func init() {
 		Level: "model_checking",
 		Rule: "stateless exploration of all schedules within a deviation bound of the real TailFile reader following a real file while a writer goroutine appends and a consumer receives: appended text of 1-3 lines over {a, bb, é} " +
 			"in every composition into <=2 (quick) / <=3 (thorough) write() calls (splits inside a line and inside the 2-byte character), initial content empty or 'old\\n', filter regex none/'a', delivery queue capacity 100 with an eager consumer or 1 with a consumer that only " +
-			"receives at the end, optional 150 ms writer pause; two followed files delivering into one shared queue (capacity 1, 2, 100); plus (canonical schedule) histories of 30..450 delivered lines followed by 1 or 3 lines dropped at a stopped consumer (capacity 4 and 100); file opens, reads and writes are scheduling points; oracle against the offset at which the follow began (observed at its Seek): delivered lines are exactly / a subsequence of the complete " +
+			"receives at the end, optional 150 ms writer pause; two followed files delivering into one shared queue (capacity 1, 2, 100); a whole tail session whose file is rotated (truncated in place / renamed and re-created) 1, 5 or 7 s into the follow, lines appended 8 s later; plus (canonical schedule) histories of 30..450 delivered lines followed by 1 or 3 lines dropped at a stopped consumer (capacity 4 and 100); file opens, reads and writes are scheduling points; oracle against the offset at which the follow began (observed at its Seek): delivered lines are exactly / a subsequence of the complete " +
 			"lines appended after that offset, unmodified and in order, nothing older, a gap only with a full queue and then the next delivered line has TransmittedPerc < 100",
 		Assumptions: []string{
-			"no truncation or rotation of the followed file (outside the statement)",
+			"truncation and rotation of the followed file only in the dedicated rotation scenarios, whose oracle is limited to lines appended 8 s or more after the rotation (the follower notices a rotation at its next 3 s check and re-opens 2 s later; lines appended in between are outside the statement)",
 			"virtual time advances only when no goroutine is runnable; the follower's 100 ms poll and 3 s truncation check run in virtual time",
 			"a write(2) is atomic with respect to a read(2) of the same file",
 		},
@@ -443,6 +543,7 @@ func init() {
 			return
 		},
 		Run: func(c *Ctx) {
+			c04Rotation(c)
 			ps, d := c04ParamSets(c.Tier)
 			if c.Thorough() {
 				d = 3
